@@ -56,7 +56,9 @@ PARTIAL = {
                             'therefore not a theorem; checked on the implementation in every run by a bitwise '
                             'snapshot of the input system, numpy.shares_memory on every per-atom array and the box, and '
                             'by scribbling over everything a call returned / was handed before the next call',
-    'carried_properties': 'per-atom properties, symbols, masses and pbc are not part of the model (it has the box, pbc '
+    'carried_properties': 'WHICH per-atom keys the copy made by normalize has is in the model since the growth round (copyKeys on '
+                          'the regenerated filter of Atoms.__deepcopy__; theorem copyKeys_complete; driver op copykeys); the VALUES of '
+                          'per-atom properties, symbols, masses and pbc are not part of the model (it has the box, pbc '
                           'and positions only); that wrap / normalize hand them on bit for bit (vector and tensor '
                           'properties are NOT rotated by normalize: neither the docstring nor the property asks for it) '
                           'is checked on the implementation in every run (round 5: under property names drawn from a pool '
